@@ -962,16 +962,17 @@ def run_factories(ctx):
                     if hgot < hdoc * (1 - 1e-9):
                         ctx.violation(name, '3d;axial', 'detector-lower-than-documented-height', height=hgot, documented=float(hdoc), z=(float(sp.min_pt[2]), float(sp.max_pt[2])))
             if nd == 3:
-                ctx.ev('factories')
-                g = TOMO.helical_geometry(sp, sr, dr, num_turns=2, n_pi=1, num_angles=9)
-                ov = overshoot_div(sp, g, transaxial_only=True)
-                if ov > bound:
-                    ctx.violation('helical_geometry', '3d', 'volume-not-covered-beyond-known-bound', overshoot=ov, bound=bound)
-                elif ov > 1e-9:
-                    ctx.violation('helical_geometry', '3d', 'volume-not-covered(tangent-ray:tan-for-sin)', overshoot=ov, bound=bound)
-                w = float(g.det_params.extent[0])
-                if w < 2 * rho * (sr + dr) / sr * (1 - 1e-9):
-                    ctx.violation('helical_geometry', '3d', 'detector-narrower-than-documented-width')
+              for hkw in (dict(num_turns=2, n_pi=1, num_angles=9), dict(num_turns=1.5), dict(num_turns=1, n_pi=3, num_angles=8)):
+                  ctx.ev('factories')
+                  g = TOMO.helical_geometry(sp, sr, dr, **hkw)
+                  ov = overshoot_div(sp, g, transaxial_only=True)
+                  if ov > bound:
+                      ctx.violation('helical_geometry', '3d', 'volume-not-covered-beyond-known-bound', overshoot=ov, bound=bound)
+                  elif ov > 1e-9:
+                      ctx.violation('helical_geometry', '3d', 'volume-not-covered(tangent-ray:tan-for-sin)', overshoot=ov, bound=bound)
+                  w = float(g.det_params.extent[0])
+                  if w < 2 * rho * (sr + dr) / sr * (1 - 1e-9):
+                      ctx.violation('helical_geometry', '3d', 'detector-narrower-than-documented-width')
         except Exception as e:
             ctx.violation('geometry-factory', '%dd' % nd, 'raises:' + type(e).__name__, message=str(e)[:200])
 
